@@ -168,7 +168,7 @@ PROPS["C05"] = {
     "level": "model_checking",
     "technique": "bounded exhaustive enumeration of (scheme, parameter set, DRBG seed, message) x a complete mutation battery per case (every single-bit flip of every integer signature component, component/range substitutions, message bit flips, group-component and key substitutions incl. identity, off-curve and out-of-subgroup points) through the real verifiers; oracle = an independent verdict on every triple: ECDSA re-implemented from the standard on reference curve arithmetic plus OpenSSL's verifier on three named curves, EC-Schnorr re-evaluated on the reference, RSA-PSS by OpenSSL, the pairing schemes' equations re-evaluated from their definitions with reference group arithmetic",
     "level_text": "ECDSA on the six 256-bit curves: keys from cp_ecdsa_gen under enumerated DRBG seeds (public key = [d]G checked by the reference), 8 (thorough 16) message lengths from {0, 1, 31..33, 55, 56, 63..65, 119, 120, 127..129, 200} x patterns, hash-then-sign and pre-hashed mode with digest lengths 20..64; per case ~560 mutated triples (all bit flips of r and s up to bit n+1; r, s -> 0, 1, n, n-1, c+n, n-c, -c, 2^256-1, c+2n, 2c; swap; message bit flips, truncation, extension; key -> identity, -Q, Q+G, 2Q, off-curve, foreign, G, (x,0), (0,0); a forgery under the identity key; projective key). The library's verdict must equal the reference verdict on EVERY triple (so (r, n-s) is expected to verify) and the reference must equal OpenSSL on P-256, secp256k1, brainpoolP256r1. EC-Schnorr: same battery against its equation. RSA-PSS (512/768/1024-bit keys): every listed signature bit flip, message bit flips, sig+N, 0, 1, N, N-1, all-ones, length k+-1, stripped leading zero, foreign key, and signatures of the ENCODED MESSAGE with each listed bit flipped (re-signed with the private exponent by GMP, so that the padding is what is wrong), judged by OpenSSL EVP_PKEY_verify (PSS, SHA-256, MGF1-SHA-256, salt length 0). BLS, BB, ZSS, CL-A, PS on BN_P256 and SM9_P256: honest signatures, every signature/key component -> identity, generator, -X, X+G, 2X, off-curve, X + twist point outside G2, foreign key, message bit flips, all-identity signatures; expected verdict = the scheme's equation and well-formedness rules evaluated with reference-computed group elements. vBNN-IBS, PoK/SoK of discrete logs (single and OR), CL-I, PS-block: completeness and structurally invalid mutations (message/identity bit, component + 1 / + G, statement + G, all-identity).",
-    "level_note": "Trusted: OpenSSL (SHA-256, RSA-PSS verify, ECDSA verify), reference group laws, the pairing for the equality tests of the pairing schemes (its bilinearity is C04). Extendable ring signatures (ers, smlers) are driven for completeness at every ring size 1..4 and for the invalidity of every member's altered proof component. Second job (C05_more.c): extendable THRESHOLD ring signatures over EVERY history of extensions and joins up to ring size 4 with every prefix judged (honest accepted for the true threshold; message bit, every member's c / r / h / y / key, every remaining trapdoor, threshold + 1, a ring forged without any secret key: rejected -- finding L40); multi-key homomorphic signatures for every shape 1..3 signers x 1..4 labels and 4-6 coefficient patterns (cp_mklhs_ver, cp_mklhs_off/onv; 12 + 4 S L mutations); two-party Pointcheval-Sanders signing/verification for the simple scheme and blocks of 1, 2, 5 (3) messages against the conventional verifiers. Context-hiding multi-key homomorphic signatures (cp_cmlhs_*, BLS and ECDSA flavours) for every shape 1..3 signers x 1..4 labels and coefficient patterns incl. the zero function: honest evaluation accepted by cp_cmlhs_ver and cp_cmlhs_off/onv; message, R, S, every signer's A / C / Z / inner signature / Y / key, every coefficient, data set name, swapped labels: rejected. Camenisch-Lysyanskaya block signatures for 1..5 messages: every message bit-flipped or swapped, every signature component + G and identity, every key component + G2, all-identity signature. Out-of-subgroup points for verifiers that do not promise a membership check are expected exactly as the equation decides.",
+    "level_note": "Trusted: OpenSSL (SHA-256, RSA-PSS verify, ECDSA verify), reference group laws, the pairing for the equality tests of the pairing schemes (its bilinearity is C04). Extendable ring signatures (ers, smlers) are driven for completeness at every ring size 1..4 and for the invalidity of every member's altered proof component. Second job (C05_more.c): extendable THRESHOLD ring signatures over EVERY history of extensions and joins up to ring size 4 with every prefix judged (honest accepted for the true threshold; message bit, every member's c / r / h / y / key, every remaining trapdoor, threshold + 1, a ring forged without any secret key: rejected -- finding L40); multi-key homomorphic signatures for every shape 1..3 signers x 1..4 labels and 4-6 coefficient patterns (cp_mklhs_ver, cp_mklhs_off/onv; 12 + 4 S L mutations); two-party Pointcheval-Sanders signing/verification for the simple scheme and blocks of 1, 2, 5 (3) messages against the conventional verifiers. Context-hiding multi-key homomorphic signatures (cp_cmlhs_*, BLS and ECDSA flavours) for every shape 1..3 signers x 1..4 labels and coefficient patterns incl. the zero function: honest evaluation accepted by cp_cmlhs_ver and cp_cmlhs_off/onv; message, R, S, every signer's A / C / Z / inner signature / Y / key, every coefficient, data set name, swapped labels: rejected. Camenisch-Lysyanskaya block signatures for 1..5 messages: every message bit-flipped or swapped, every signature component + G and identity, sum-preserving pairs of the A_i / B_i and triples of the B_i altered along the kernel of (sum, message-weighted sum), every key component + G2, all-identity signature. Out-of-subgroup points for verifiers that do not promise a membership check are expected exactly as the equation decides.",
     "rule": "cases are (scheme, set, seed, message spec); each runs its whole mutation battery; transitions = verdicts compared; mutations_judged, oracle_accepts, oracle_rejects are reported.",
     "assumptions": ["OpenSSL as independent implementation", "reference group laws", "pairing bilinear (C04)"],
     "jobs": [
